@@ -90,7 +90,7 @@ def seq_property(inp, obs):
 def stream_seq(ctx, h, m):
     stream = "c26.seq"
     r = vlib.value_stream(
-        ctx, stream, h, m, ctx.n(1000, 100000), seq_key,
+        ctx, stream, h, m, ctx.n(1000, 40000), seq_key,
         "seeded sequences (1-40 ops, thorough 1-200) of Add/Get/GetName/ExistsId over 16 names (empty, NUL, invalid UTF-8, "
         "composed/decomposed e-acute, CJK, emoji, 300 bytes) and boundary symbols on a fresh table; every result and the final "
         "id table compared with the extracted micro-op model run on the regenerated op table; non-trivial = at least one Add "
@@ -197,7 +197,7 @@ def run(ctx):
             "bijection on the merged results (same name same id, distinct names distinct ids, dense, final table backs every id); "
             "oracle 2: the extracted model replays the final table as Adds and must reproduce every distinct observation; "
             "non-trivial = at least 2 names interned; distinct by input")
-    c = run_conc(ctx, stream, h, ctx.n(60, 1500), "conc", m, corpus=os.path.join(vlib.ROOT, "corpus", "C26.conc.txt"))
+    c = run_conc(ctx, stream, h, ctx.n(60, 600), "conc", m, corpus=os.path.join(vlib.ROOT, "corpus", "C26.conc.txt"))
     if c:
         ctx.stream(stream, len(c["ids"]), len(c["distinct"]), rule,
                    [{"input": c["inputs"][i], "observed": c["obs"][i][:300]} for i in c["ids"][:2] + c["ids"][-1:]],
